@@ -1235,7 +1235,15 @@ impl<'a> Iterator for TLVSequenceTLVIter<'a> {
     type Item = Result<TLV<'a>, Error>;
 
     fn next(&mut self) -> Option<Self::Item> {
-        self.try_next().transpose()
+        let result = self.try_next();
+
+        if result.is_err() {
+            // Malformed at this point: end the iteration after reporting the error (once)
+            self.seq = TLVSequence::EMPTY;
+            self.nesting = 0;
+        }
+
+        result.transpose()
     }
 }
 
@@ -1261,9 +1269,19 @@ impl<'a> Iterator for TLVSequenceIter<'a> {
     type Item = Result<TLVElement<'a>, Error>;
 
     fn next(&mut self) -> Option<Self::Item> {
-        self.0
+        let result = self
+            .0
             .current()
-            .and_then(|current| self.advance().map(|_| current))
+            .and_then(|current| self.advance().map(|_| current));
+
+        if result.is_err() {
+            // The sequence is malformed at this point and it is not possible to get past it:
+            // end the iteration after reporting the error (once), or else iterator consumers
+            // like `count()` or `flatten()` would never terminate
+            self.0 = TLVSequence::EMPTY;
+        }
+
+        result
             .map(|elem| (!elem.is_empty()).then_some(elem))
             .transpose()
     }
